@@ -32,6 +32,8 @@ type Event struct {
 // Env carries the recorder log and knobs shared by all callbacks of one built schema.
 type Env struct {
 	Log       []Event
+	// Silent: callbacks do not record (the Env is then safe to share between goroutines).
+	Silent    bool
 	WatchKeys []string
 	// PostErrs holds the error values returned by "error"/"issue" PostTransforms, by node id and index.
 	PostErrs map[[2]int]error
@@ -81,6 +83,13 @@ func describeArg(ev *Event, val any) (deref reflect.Value) {
 
 func (e *Env) testFunc(n *Node, idx int, pred string) z.BoolTFunc {
 	return func(val any, ctx z.Ctx) bool {
+		if e.Silent {
+			rv := reflect.ValueOf(val)
+			if rv.IsValid() && rv.Kind() == reflect.Pointer && !rv.IsNil() {
+				rv = rv.Elem()
+			}
+			return !rv.IsValid() || safeEvalFunc(pred, rv)
+		}
 		ev := Event{Kind: "test", Node: n.ID, Idx: idx, Ctx: e.ctxVals(ctx)}
 		rv := describeArg(&ev, val)
 		ok := true
@@ -111,6 +120,12 @@ func (p *PostError) Error() string { return fmt.Sprintf("post-error n%d#%d", p.N
 
 func (e *Env) postFunc(n *Node, idx int, ps PostSpec) z.PostTransform {
 	return func(ptr any, ctx z.Ctx) error {
+		if e.Silent {
+			if rv := reflect.ValueOf(ptr); ps.Behaviour == "mutate" && rv.IsValid() && rv.Kind() == reflect.Pointer && !rv.IsNil() {
+				ApplyPostMutation(rv.Elem())
+			}
+			return nil
+		}
 		ev := Event{Kind: "post", Node: n.ID, Idx: idx, Ctx: e.ctxVals(ctx)}
 		rv := describeArg(&ev, ptr)
 		var ret error
@@ -224,9 +239,11 @@ func GlobalCoercer(base string) conf.CoercerFunc {
 func (e *Env) coercer(n *Node) conf.CoercerFunc {
 	kind := n.Kind
 	return func(data any) (any, error) {
-		ev := Event{Kind: "coerce", Node: n.ID}
-		describeArg(&ev, data)
-		e.Log = append(e.Log, ev)
+		if !e.Silent {
+			ev := Event{Kind: "coerce", Node: n.ID}
+			describeArg(&ev, data)
+			e.Log = append(e.Log, ev)
+		}
 		if s, ok := data.(string); ok && s == "COERCE-ERR" {
 			return nil, errors.New("custom coercer refused")
 		}
@@ -604,6 +621,13 @@ func build(n *Node, e *Env) (z.ZogSchema, reflect.Type) {
 }
 
 func (e *Env) customCall(n *Node, p any, ctx z.Ctx) bool {
+	if e.Silent {
+		rv := reflect.ValueOf(p)
+		if !rv.IsValid() || rv.Kind() != reflect.Pointer || rv.IsNil() {
+			return true
+		}
+		return safeEvalFunc(n.CustomFn, rv.Elem())
+	}
 	ev := Event{Kind: "custom", Node: n.ID, Ctx: e.ctxVals(ctx)}
 	rv := describeArg(&ev, p)
 	ok := true
@@ -616,6 +640,9 @@ func (e *Env) customCall(n *Node, p any, ctx z.Ctx) bool {
 }
 
 func (e *Env) preCall(n *Node, data any, ctx z.Ctx) {
+	if e.Silent {
+		return
+	}
 	ev := Event{Kind: "pre", Node: n.ID, Ctx: e.ctxVals(ctx)}
 	describeArg(&ev, data)
 	e.Log = append(e.Log, ev)
@@ -795,7 +822,9 @@ func Run(schema z.ZogSchema, e *Env, x Exec, data any, dest reflect.Value) (res 
 // RunWith is Run with additional execution options.
 func RunWith(schema z.ZogSchema, e *Env, x Exec, data any, dest reflect.Value, extra []z.ExecOption) (res *Result) {
 	res = &Result{Dest: dest}
-	e.Reset()
+	if !e.Silent {
+		e.Reset()
+	}
 	opts := append(e.execOpts(x), extra...)
 	defer func() {
 		if p := recover(); p != nil {
@@ -808,7 +837,9 @@ func RunWith(schema z.ZogSchema, e *Env, x Exec, data any, dest reflect.Value, e
 			res.Panic = p
 			res.Stack = string(debug.Stack())
 		}
-		res.Log = append([]Event(nil), e.Log...)
+		if !e.Silent {
+			res.Log = append([]Event(nil), e.Log...)
+		}
 	}()
 	parse := x.Mode == "parse"
 	d := dest.Interface()
